@@ -461,37 +461,45 @@ def make_subst(repo: Repo, v: FuncInfo):
 
     mutated_at = _mutation_positions(v.node)
 
-    def union_parts(name: str) -> list[str] | None:
-        """[A, B, ..] if the local `name` is bound once to the union of node sets that are complete by then."""
-        if name not in single or name in params:
+    def member(left: str, se: ast.AST, depth: int = 0, top: bool = True) -> Formula | None:
+        """Formula of `left in <set expression>` for set algebra over node sets (`A | B`, `A - B`, `A & B`, .union / .difference /
+        .intersection, `{*A, *B}`), also through a local bound once to such an expression whose operands are complete by then.
+        None when the expression is a plain set (the membership stays an atom)."""
+        se = strip(se)
+        if isinstance(se, ast.Name):
+            if se.id in single and se.id not in params and depth < 4:
+                val = strip(single[se.id])
+                if isinstance(val, (ast.BinOp, ast.Set)) or (isinstance(val, ast.Call) and isinstance(val.func, ast.Attribute) and val.func.attr in ("union", "difference", "intersection")):
+                    here = mutated_at["@pos"].get(id(single[se.id]), -1)
+                    operands = {x.id for x in ast.walk(val) if isinstance(x, ast.Name)}
+                    if not any(pos > here for x in operands for pos in mutated_at.get(x, [])):
+                        got = member(left, val, depth + 1, True)
+                        if got is not None:
+                            return got
+            return None if top else atom(f"{left} in {se.id}")
+        parts: list[tuple[str, ast.AST]] = []
+        if isinstance(se, ast.BinOp) and isinstance(se.op, (ast.BitOr, ast.Sub, ast.BitAnd)):
+            op = {ast.BitOr: "or", ast.Sub: "sub", ast.BitAnd: "and"}[type(se.op)]
+            parts = [("first", se.left), (op, se.right)]
+        elif isinstance(se, ast.Call) and isinstance(se.func, ast.Attribute) and se.func.attr in ("union", "difference", "intersection") and se.args and not se.keywords and not any(isinstance(a, ast.Starred) for a in se.args):
+            op = {"union": "or", "difference": "sub", "intersection": "and"}[se.func.attr]
+            parts = [("first", se.func.value), *[(op, a) for a in se.args]]
+        elif isinstance(se, ast.Set) and se.elts and all(isinstance(x, ast.Starred) for x in se.elts):
+            parts = [("first" if i == 0 else "or", x.value) for i, x in enumerate(se.elts)]
+        else:
             return None
-        val = strip(single[name])
-        parts: list[ast.AST] = []
-        if isinstance(val, ast.BinOp) and isinstance(val.op, ast.BitOr):
-            todo = [val]
-            while todo:
-                x = todo.pop()
-                if isinstance(x, ast.BinOp) and isinstance(x.op, ast.BitOr):
-                    todo += [x.right, x.left]
-                else:
-                    parts.append(strip(x))
-        elif isinstance(val, ast.Call) and isinstance(val.func, ast.Attribute) and val.func.attr == "union" and val.args and not val.keywords:
-            parts = [strip(val.func.value), *[strip(a) for a in val.args]]
-        elif isinstance(val, ast.Set) and val.elts and all(isinstance(x, ast.Starred) for x in val.elts):
-            parts = [strip(x.value) for x in val.elts]
-        if len(parts) < 2 or not all(isinstance(x, ast.Name) for x in parts):
-            return None
-        here = mutated_at["@pos"].get(id(single[name]), -1)
-        for x in parts:
-            if any(pos > here for pos in mutated_at.get(x.id, [])):
-                return None  # a part still changes after the union was taken
-        return [x.id for x in parts]
+        f: Formula | None = None
+        for op, x in parts:
+            g = member(left, x, depth + 1, False)
+            if g is None:
+                return None
+            f = g if op == "first" else f_or([f, g]) if op == "or" else f_and([f, f_not(g)]) if op == "sub" else f_and([f, g])
+        return f
 
     def subst(e: ast.expr):
-        if isinstance(e, ast.Compare) and len(e.ops) == 1 and isinstance(e.ops[0], (ast.In, ast.NotIn)) and isinstance(e.comparators[0], ast.Name):
-            parts = union_parts(e.comparators[0].id)
-            if parts is not None:
-                f = f_or([atom(f"{norm(e.left)} in {x}") for x in parts])
+        if isinstance(e, ast.Compare) and len(e.ops) == 1 and isinstance(e.ops[0], (ast.In, ast.NotIn)):
+            f = member(norm(e.left), e.comparators[0])
+            if f is not None:
                 return f if isinstance(e.ops[0], ast.In) else f_not(f)
         if isinstance(e, ast.Name) and e.id in single and e.id not in params:
             val = single[e.id]
@@ -1149,6 +1157,10 @@ def record_pair(model: SearchModel, ev: Event) -> tuple[str, str] | None:
     todo = [e]
     while todo:
         n = todo.pop(0)
+        if isinstance(n, ast.Call) and isinstance(n.func, ast.Name) and not n.keywords and len(n.args) >= 2:
+            got = _pair_through_helper(model, n, want)
+            if got is not None:
+                return got
         if isinstance(n, (ast.List, ast.Tuple)) and len(n.elts) == 2:
             ms = []
             for x in n.elts:
@@ -1159,6 +1171,63 @@ def record_pair(model: SearchModel, ev: Event) -> tuple[str, str] | None:
         if isinstance(n, ast.Lambda):
             continue
         todo.extend(ast.iter_child_nodes(n))
+    return None
+
+
+def _pair_through_helper(model: SearchModel, call: ast.Call, want: set[str]) -> tuple[str, str] | None:
+    """`helper(a, b)` where the helper returns a pair built from its parameters: the pair in terms of the arguments."""
+    repo = model.fi.module.repo  # type: ignore[attr-defined]
+    src = getattr(call, "_src", None)
+    mod = src[0].module if src is not None else model.fi.module
+    f = mod.functions.get(call.func.id)
+    if f is None:
+        fq = repo.resolve_name(mod, call.func)
+        if fq:
+            m2, _, attr = fq.rpartition(".")
+            om = repo.modules.get(m2)
+            f = om.functions.get(attr) if om is not None else None
+    if f is None or isinstance(f.node, ast.Lambda) or len(f.param_names) < len(call.args):
+        return None
+    arg_of: dict[str, str] = {}
+    for p_, a in zip(f.param_names, call.args):
+        names = {y.id for y in ast.walk(a) if isinstance(y, ast.Name)} & want
+        if len(names) == 1:
+            arg_of[p_] = next(iter(names))
+    if len(set(arg_of.values())) != 2:
+        return None
+    hv = search_view(repo, f)
+    single = _single_assignments(hv.node)
+
+    def expand(e: ast.AST, depth: int = 0) -> ast.AST:
+        if depth > 3:
+            return e
+
+        class Tr(ast.NodeTransformer):
+            def visit_Name(self, n: ast.Name):  # noqa: N802
+                if isinstance(n.ctx, ast.Load) and n.id in single and n.id not in arg_of:
+                    return expand(_clone(single[n.id]), depth + 1)
+                return n
+
+            def visit_Lambda(self, n):  # noqa: N802
+                return n
+
+        return Tr().visit(_clone(e))
+
+    for r in own_nodes(hv.node):
+        if isinstance(r, ast.Return) and r.value is not None:
+            todo = [expand(r.value)]
+            while todo:
+                n = todo.pop(0)
+                if isinstance(n, (ast.List, ast.Tuple)) and len(n.elts) == 2:
+                    ms = []
+                    for x in n.elts:
+                        names = {y.id for y in ast.walk(x) if isinstance(y, ast.Name) and isinstance(y.ctx, ast.Load)} & set(arg_of)
+                        ms.append(next(iter(names)) if len(names) == 1 else None)
+                    if ms[0] and ms[1] and ms[0] != ms[1]:
+                        return arg_of[ms[0]], arg_of[ms[1]]
+                if isinstance(n, ast.Lambda):
+                    continue
+                todo.extend(ast.iter_child_nodes(n))
     return None
 
 
